@@ -134,6 +134,25 @@ func runC14Push(c C14Case) (st Stats, err error) {
 			case "pop":
 				m.Pop()
 				s.Pop()
+			case "remove": // (the backing array is rebuilt: the room that "remains" is the configured one all the same)
+				if m.Len() > 0 {
+					pos := posMod(step.Table, m.Len())
+					m.Remove(pos)
+					s.Remove(pos)
+					st.Class("history:remove")
+				}
+			case "reset":
+				m.Reset()
+				s.Reset()
+				st.Class("history:reset")
+			case "insertfront":
+				if !m.Full() {
+					x := "ins" + itoa(i)
+					if m.Insert(x, 0) {
+						s.Insert(x, 0)
+						st.Class("history:insert-front")
+					}
+				}
 			case "push":
 				log = nil
 				var wantLog []any
@@ -641,7 +660,7 @@ func genC14(t *rapid.T, tier Tier) C14Case {
 			c.Cap = rapid.IntRange(1, 6).Draw(t, "cap")
 		}
 		n := rapid.IntRange(1, 15).Draw(t, "nsteps")
-		ops := []string{"push", "push", "push", "setpolicy", "setpolicy", "clearpolicy", "pop", "clearerr", "nonest"}
+		ops := []string{"push", "push", "push", "setpolicy", "setpolicy", "clearpolicy", "pop", "clearerr", "nonest", "remove", "reset", "insertfront"}
 		// start with a policy most of the time
 		if rapid.IntRange(0, 3).Draw(t, "startpol") > 0 {
 			c.Steps = append(c.Steps, C14Step{Op: "setpolicy", Table: rapid.IntRange(0, 1023).Draw(t, "table")})
@@ -658,6 +677,8 @@ func genC14(t *rapid.T, tier Tier) C14Case {
 				s.Table = rapid.IntRange(0, 1023).Draw(t, "table")
 			case "nonest":
 				s.Table = rapid.IntRange(0, 2).Draw(t, "mode")
+			case "remove":
+				s.Table = rapid.IntRange(0, 9).Draw(t, "removeat")
 			}
 			c.Steps = append(c.Steps, s)
 		}
